@@ -481,8 +481,8 @@ pub fn run(ctx: &Ctx) {
          call, or (replica) >= 1 accepted and >= 1 refused proof.",
     );
     ctx.assume("event content of calls the statement does not mention (missing_nodes, clear) is not asserted beyond 'clear announces no availability'");
-    random_stage(ctx, "writers", ctx.tier.pick(20_000, 400_000), wevents_strategy, |ops: &Vec<WEOp>, local| run_writer(ops, local));
-    random_stage(ctx, "replicas", ctx.tier.pick(12_000, 250_000), revents_strategy, |ops: &Vec<REOp>, local| run_replica(ops, local));
+    random_stage(ctx, "writers", ctx.tier.pick(20_000, 1_500_000), wevents_strategy, |ops: &Vec<WEOp>, local| run_writer(ops, local));
+    random_stage(ctx, "replicas", ctx.tier.pick(12_000, 1_000_000), revents_strategy, |ops: &Vec<REOp>, local| run_replica(ops, local));
 }
 
 pub fn replay(case: &Value) -> Check {
